@@ -328,3 +328,24 @@ PROPS["C06"].update(
 )
 TEXT["C06"]["engine"] = "sim+harness"
 TEXT["C06"]["level_text"] = TEXT["C06"]["level_text"].replace("per key the recovered value", "sequential chains and concurrent runs (Sync racing with writers and compaction under the seeded scheduler); per key the recovered value")
+
+PROPS["C16"].update(
+    rule="5 of 6 runs: " + PROPS["C16"]["rule"] + ". 1 of 6 runs: a seeded program with values of 0 ... 16000 bytes executed on the simulated disk and on the real fs.OSMMap whose initial mapping is set (scratch build knob) to the largest record of the run, "
+         "so that records of up to one whole mapping cross the end of the mapping; results must equal the reference map on both",
+    real=REAL_SEQ + ["fs.OSMMap (real mmap) in 1 of 6 runs"],
+)
+PROPS["C16"]["must_reach"]["quick"] = PROPS["C16"]["must_reach"]["quick"] + ["program_executed_on_osmmap"]
+
+PROPS["C19"].update(
+    rule=PROPS["C19"]["rule"] + ". One worker additionally recovers a segment of more than 2 GiB (512 valid records of 4 MiB served procedurally by the simulated disk, nothing of it held in memory) whose tail is a header claiming "
+         "key/value sizes around 2^31 (7 cases: offsets + claimed lengths cross 2^32); there the bound is 2 x bytes present + 64 MiB, the read-request bound is the same, the segment must be cut back to its valid prefix and the last record must read back",
+    big_worker=True, mem_gb=12,
+)
+PROPS["C19"]["must_reach"]["quick"] = PROPS["C19"]["must_reach"]["quick"] + ["huge_segment_recovered"]
+PROPS["C19"]["must_reach"]["thorough"] = PROPS["C19"]["must_reach"]["thorough"] + ["huge_segment_recovered"]
+
+IOF = " In 1 of 3 runs the record append of 1-2 writes fails with an injected ENOSPC after part of the record was stored (the failed write must have had no effect or its whole effect; the session then stays open until its crash; everything acknowledged afterwards is under the same oracle)."
+for _p in ("C03", "C04", "C06"):
+    PROPS[_p]["rule"] = PROPS[_p]["rule"] + IOF
+    PROPS[_p]["assumptions"] = PROPS[_p]["assumptions"] + ["the injected I/O error is the only one (DESIGN.md 12.5): after it the independent decoder tolerates an invalid TAIL of a segment and Compact may fail - both are what the unchanged code does after a failed append, and no listed property covers behaviour after a failed file-system call"]
+    PROPS[_p]["must_reach"]["quick"] = PROPS[_p]["must_reach"]["quick"] + ["write_failed_by_injected_error"]
